@@ -1,6 +1,7 @@
 /* exitsig exit N  -> exits with status N
  * exitsig sig N   -> kills itself with signal N (default disposition restored)
  * exitsig linger N -> exits with status N while a forked child keeps the inherited stdout/stderr open for 2 s
+ * exitsig oe N OUT ERR -> writes OUT and a line feed to stdout, then ERR and a line feed to stderr, exits with N
  * optional third argument: text written to stdout first */
 #include <signal.h>
 #include <stdio.h>
@@ -14,6 +15,10 @@ int main(int argc, char **argv) {
     if (argc > 3) { fputs(argv[3], stdout); fputc('\n', stdout); fflush(stdout); }
     int n = atoi(argv[2]);
     if (strcmp(argv[1], "exit") == 0) return n;
+    if (strcmp(argv[1], "oe") == 0) {
+        if (argc > 4) { fputs(argv[4], stderr); fputc('\n', stderr); fflush(stderr); }
+        return n;
+    }
     if (strcmp(argv[1], "sig") == 0) {
         struct rlimit rl = {0, 0};
         setrlimit(RLIMIT_CORE, &rl);
